@@ -72,6 +72,23 @@ class DD(DB, DC):
     pass
 
 
+class XB:
+    def __init__(self):
+        self.x = 'attr-x'
+
+
+class XC:
+    pass
+
+
+class XD(XC, XB):
+    pass
+
+
+class XE(XD):
+    pass
+
+
 class Mix:
     pass
 
@@ -140,6 +157,7 @@ class MyOD(OrderedDict):
 FAMILIES = {
     'chain': [A, B, C, D],
     'diamond': [DA, DB, DC, DD],
+    'diamond-bottom': [XB, XC, XD, XE],
     'mixin': [Mix, MA, MB],
     'iterable': [It, It2],
     'slots': [Sl, Sl2],
@@ -148,7 +166,7 @@ FAMILIES = {
 }
 CLS = {c.__name__: c for fam in FAMILIES.values() for c in fam}
 REGISTRABLE = {   # which classes of a family get registered (instances of ALL classes are observed)
-    'chain': ['A', 'B', 'C'], 'diamond': ['DA', 'DB', 'DC'], 'mixin': ['Mix', 'MA'], 'iterable': ['It'], 'slots': ['Sl'],
+    'chain': ['A', 'B', 'C'], 'diamond': ['DA', 'DB', 'DC'], 'diamond-bottom': ['XD', 'XB', 'XC'], 'mixin': ['Mix', 'MA'], 'iterable': ['It'], 'slots': ['Sl'],
     'dictsub': ['MyDict', 'MyDictS'], 'seqsub': ['MyList'],
 }
 OPSETS = {'all': OPS, 'get': ['get'], 'itk': ['iterate', 'keys'], 'mut': ['assign', 'delete']}
@@ -539,6 +557,13 @@ def gen_histories(tier):
                     mixed = list(hist)
                     mixed.insert(1, ['bare', hist[0][1], 'all', False])
                     cases.append([family, mixed, False])
+        if family == 'diamond-bottom':
+            # the registered bottom of a diamond with an unregistered subclass below it: all orders of the three registrations
+            for opset in ('get', 'all'):
+                evs = [['default', c, opset, False] for c in REGISTRABLE[family]]
+                for order in itertools.permutations(evs, 3):
+                    cases.append([family, [list(e) for e in order], False])
+                    cases.append([family, [['bare'] + list(e[1:]) for e in order], False])
         # module-level registry (forked child per history): single events and ordered pairs over the 'all' / 'get' op sets
         mod_events = [['module', c, opset, exact] for c in REGISTRABLE[family] for opset in ('all', 'get') for exact in (False, True)]
         cases.append([family, [], True])
